@@ -902,17 +902,24 @@ func (n *Node) syncApply(blks []*Block) {
 	}
 }
 
+func (n *Node) inChain(h Hash) bool {
+	for _, b := range n.ledger {
+		for _, x := range b.TxHashes {
+			if x == h {
+				return true
+			}
+		}
+	}
+	return false
+}
+
 func (n *Node) txArrive(tx *Tx) {
 	if n.s.deadTx[tx.Hash()] {
 		return
 	}
 	// a transaction already in the chain never re-enters the pool
-	for _, b := range n.ledger {
-		for _, h := range b.TxHashes {
-			if h == tx.Hash() {
-				return
-			}
-		}
+	if n.inChain(tx.Hash()) {
+		return
 	}
 	if _, ok := n.pool[tx.Hash()]; ok {
 		return
